@@ -466,13 +466,53 @@ func ruleS3Fields(r *core.Reporter) {
 			}
 		})
 	}
+	sfnTop := p.Func(rel(pkgExtractor), "S3")
 	for _, nm := range []string{"s3Legacy", "s3V2"} {
 		fn := p.Func(rel(pkgExtractor), nm)
-		if fn == nil {
+		// the handler may have been folded into S3: it is then the branch of the list-type test
+		inRegion := func(ssa.Instruction) bool { return true }
+		var entry ir.Pt
+		reqRoot := ""
+		if fn != nil {
+			entry = ir.Entry(fn)
+			reqRoot = "$" + fn.Params[0].Name()
+		} else if sfnTop != nil {
+			for _, ii := range ir.Ifs(sfnTop) {
+				a := ii.Atom
+				if a.V == nil && a.Op == token.EQL {
+					if sv, okc := ir.ConstString(a.Y); okc && sv == "2" && strings.Contains(ir.Path(a.X), `Get("list-type")`) {
+						mine, other := ii.EdgeWhen(nm == "s3V2"), ii.EdgeWhen(nm != "s3V2")
+						rm := ir.Reach([]ir.Pt{{B: ii.If.Block().Succs[mine], I: 0}}, ir.Opts{}).Reached
+						ro := ir.Reach([]ir.Pt{{B: ii.If.Block().Succs[other], I: 0}}, ir.Opts{}).Reached
+						inRegion = func(in ssa.Instruction) bool { return rm[in] && !ro[in] }
+						entry = ir.Pt{B: ii.If.Block().Succs[mine], I: 0}
+						fn = sfnTop
+						reqRoot = "$" + sfnTop.Params[0].Name() + ".GetRequest().URL"
+					}
+				}
+			}
+		}
+		if fn == nil || entry.B == nil {
 			r.Undecided(nm, "", "anchor not found")
 			continue
 		}
 		r.Analysed(fn)
+		scopedInstrs := func(f func(ssa.Instruction)) {
+			allInstrs(fn, func(in ssa.Instruction) {
+				if inRegion(in) {
+					f(in)
+				}
+			})
+		}
+		scopedIfs := func() []ir.IfInfo {
+			var out []ir.IfInfo
+			for _, ii := range ir.Ifs(fn) {
+				if inRegion(ii.If) {
+					out = append(out, ii)
+				}
+			}
+			return out
+		}
 		fieldOfCond := func(a ir.Atom) string {
 			for _, v := range []ssa.Value{a.X, a.Y, a.V} {
 				if v == nil {
@@ -492,7 +532,7 @@ func ruleS3Fields(r *core.Reporter) {
 			var ia *ssa.IndexAddr
 			owner := fn
 			var anchor ssa.Instruction
-			allInstrs(fn, func(in ssa.Instruction) {
+			scopedInstrs(func(in ssa.Instruction) {
 				if x, ok := in.(*ssa.IndexAddr); ok && strings.HasSuffix(ir.Path(x.X), "."+field) {
 					if _, isInd := x.Index.(*ssa.BinOp); isInd && loopCoversAll(fn, x) {
 						ia = x
@@ -501,7 +541,7 @@ func ruleS3Fields(r *core.Reporter) {
 			})
 			if ia == nil {
 				// the loop may live in a helper that is handed the field
-				allInstrs(fn, func(in ssa.Instruction) {
+				scopedInstrs(func(in ssa.Instruction) {
 					c, ok := in.(*ssa.Call)
 					if !ok {
 						return
@@ -536,7 +576,7 @@ func ruleS3Fields(r *core.Reporter) {
 				anchor = l.If
 			}
 			cross := ""
-			for _, ii := range ir.Ifs(fn) {
+			for _, ii := range scopedIfs() {
 				if ii.If == l.If {
 					continue
 				}
@@ -544,7 +584,7 @@ func ruleS3Fields(r *core.Reporter) {
 					if isLoopExitEdge(ii, t) {
 						continue // sequential composition after an earlier loop, not a condition
 					}
-					if ir.OnlyVia(ir.Entry(fn), anchor, ii.If.Block(), ii.EdgeWhen(t)) {
+					if ir.OnlyVia(entry, anchor, ii.If.Block(), ii.EdgeWhen(t)) {
 						if f := fieldOfCond(ii.Atom); f != "" && f != field {
 							cross = f
 						}
@@ -639,7 +679,7 @@ func ruleS3Fields(r *core.Reporter) {
 		}
 		params := map[string]*pageParam{}
 		var setCalls []*pageParam
-		allInstrs(fn, func(in ssa.Instruction) {
+		scopedInstrs(func(in ssa.Instruction) {
 			c, ok := in.(*ssa.Call)
 			if !ok {
 				return
@@ -693,7 +733,7 @@ func ruleS3Fields(r *core.Reporter) {
 				c := pp.at
 				val := ir.Path(pp.val)
 				okVal := strings.Contains(val, ".Contents[(builtin.len(") && strings.HasSuffix(val, ".Key")
-				_, g := ir.GuardedBy(fn, ir.Entry(fn), c, true, func(a ir.Atom) bool {
+				_, g := ir.GuardedBy(fn, entry, c, true, func(a ir.Atom) bool {
 					if a.V != nil || a.Op != token.LSS {
 						return false
 					}
@@ -701,7 +741,7 @@ func ruleS3Fields(r *core.Reporter) {
 					cl, isC := a.Y.(*ssa.Call)
 					return okc && z == 0 && isC && ir.CallName(cl.Common()) == "builtin.len" && strings.HasSuffix(ir.Path(cl.Call.Args[0]), ".Contents")
 				})
-				only := onlyGuard(fn, c, "Contents")
+				only := onlyGuardFrom(fn, entry, inRegion, c, "Contents")
 				if okVal && g && only {
 					r.Held(nm+"/next-page", 1, "marker = last key of the page, emitted whenever the page is non-empty")
 				} else {
@@ -716,12 +756,12 @@ func ruleS3Fields(r *core.Reporter) {
 				c := pp.at
 				okVal := strings.HasSuffix(ir.Path(pp.val), ".NextContinuationToken")
 				okGuard := true
-				for _, ii := range ir.Ifs(fn) {
+				for _, ii := range scopedIfs() {
 					for _, t := range []bool{true, false} {
 						if isLoopExitEdge(ii, t) {
 							continue
 						}
-						if ir.OnlyVia(ir.Entry(fn), c, ii.If.Block(), ii.EdgeWhen(t)) {
+						if ir.OnlyVia(entry, c, ii.If.Block(), ii.EdgeWhen(t)) {
 							f := fieldOfCond(ii.Atom)
 							if f != "IsTruncated" && f != "NextContinuationToken" {
 								okGuard = false
@@ -743,7 +783,7 @@ func ruleS3Fields(r *core.Reporter) {
 		okReuse := true
 		for _, pp := range setCalls {
 			// the URL the query is taken from is a copy of reqURL
-			if pp.url == nil || !strings.Contains(ir.Path(pp.url), "$"+fn.Params[0].Name()) {
+			if pp.url == nil || !strings.Contains(ir.Path(pp.url), reqRoot) {
 				okReuse = false
 			}
 		}
@@ -777,12 +817,19 @@ func ruleS3Fields(r *core.Reporter) {
 
 // onlyGuard: all conditions that gate `at` mention the given listing field (or none do).
 func onlyGuard(fn *ssa.Function, at ssa.Instruction, field string) bool {
+	return onlyGuardFrom(fn, ir.Entry(fn), func(ssa.Instruction) bool { return true }, at, field)
+}
+
+func onlyGuardFrom(fn *ssa.Function, entry ir.Pt, inRegion func(ssa.Instruction) bool, at ssa.Instruction, field string) bool {
 	for _, ii := range ir.Ifs(fn) {
+		if !inRegion(ii.If) {
+			continue
+		}
 		for _, t := range []bool{true, false} {
 			if isLoopExitEdge(ii, t) {
 				continue
 			}
-			if ir.OnlyVia(ir.Entry(fn), at, ii.If.Block(), ii.EdgeWhen(t)) {
+			if ir.OnlyVia(entry, at, ii.If.Block(), ii.EdgeWhen(t)) {
 				ok := false
 				for _, v := range []ssa.Value{ii.Atom.X, ii.Atom.Y, ii.Atom.V} {
 					if v != nil && strings.Contains(ir.Path(v), "."+field) {
